@@ -241,7 +241,10 @@ pub fn run_check_with_context(opts: &CheckOptions<'_>) -> crate::Result<i32> {
         scan_or_filter_files(args, cli, paths, ctx, project_root)?;
 
     // Determine fail_fast mode from CLI or config
-    let fail_fast = args.fail_fast || config.check.fail_fast;
+    // A baseline update describes the whole project state: stopping at the first failure would
+    // rewrite the file from a part of it and drop (or never record) what lies behind the stop.
+    let fail_fast =
+        (args.fail_fast || config.check.fail_fast) && args.update_baseline.is_none();
     let failure_detected = AtomicBool::new(false);
     // Set when fail_fast actually left a file unprocessed: the run's totals are then partial.
     let files_skipped = AtomicBool::new(false);
